@@ -163,7 +163,21 @@ def run(run_, pkg, tier):
         key = "C03-a/custom-edge-jacobian/%s" % "+".join(vt)
         if run_.wants(key):
             tasks.append((key, "C03-a-custom-edge-jacobian", finite_difference_obligation(vt), "%s:%d" % (jfn._gs_module, jfn.lineno)))
-    record(run_, tasks, run_tasks(pkg, tasks))
+    results = run_tasks(pkg, tasks)
+    record(run_, tasks, results)
+    # the assembly tests the number of edges / vertices against constants (batching, thresholds): aim a scenario at them
+    from ..algebra import size_constants
+    from ..assembly import Scenario
+    consts = [c for c in size_constants([r for t, r in zip(tasks, results) if t[1].startswith("C03-bc")]) if c <= 10000]
+    if consts:
+        extra = []
+        for c in consts[:2]:
+            for k in sorted({c, c + 1}):
+                scn = Scenario("directed/%d-parallel-edges" % k, ["PoseSE2", "PoseR2"], [(0, 1) if j % 2 == 0 else (1, 0) for j in range(k)],
+                               fix_first_pose=True, identical_edges=True)
+                extra.append(("C03-bc/assembly/%s (directed at the size constant %d in the code)" % (scn.name, c), "C03-bc-assembly",
+                              assembly_obligation(scn, allow_size_thresholds=True), "%s:%d" % (fn._gs_module, fn.lineno)))
+        record(run_, extra, run_tasks(pkg, extra))
     if run_.only is None:
         n = optim_rules.optimize_verdicts(run_, pkg, "C03", lambda f: (f.key, f.rule) if f.rule.startswith("C03-d") else None)
         run_.floor("C03-d rule instances", n, 6)
